@@ -102,3 +102,30 @@ def common_window(a: bytes, b: bytes, n: int = 16) -> int | None:
         if a[i:i + n] in windows:
             return i
     return None
+
+
+SHAPES = ("opaque", "v1", "v2", "pfx1", "pfx2", "pfx4", "pfx6", "pfx8")
+SHAPE_SIZE = {"opaque": 40, "v1": 32, "v2": 32, "pfx1": 53, "pfx2": 53, "pfx4": 53, "pfx6": 53, "pfx8": 53}
+
+
+def shaped_payload(shape: str, salt: int, prefix: bytes) -> bytes:
+    """
+    Payloads that do not look like BitTorrent:
+      opaque  40 bytes that are neither BitTorrent- nor IPv8-shaped
+      v1 / v2 00 01 / 00 02 + 30 bytes (the first two bytes of every IPv8 packet)
+      pfxN    the tunnel overlay's own 22-byte prefix + message id N (1 data, 2 create, 4 extend, 6 ping, 8 destroy) + 30
+    Each contains the MARKER.
+    """
+    tail = MARKER + bytes((salt * 5 + 17 * i + 3) & 0xFF for i in range(14))
+    if shape == "opaque":
+        out = b"\xf3\x9c\xa7\xee\x81\xd2\xb6\xfa\xc3\x95" + tail
+    elif shape == "v1":
+        out = b"\x00\x01" + tail
+    elif shape == "v2":
+        out = b"\x00\x02" + tail
+    elif shape.startswith("pfx"):
+        out = prefix + bytes([int(shape[3:])]) + tail
+    else:
+        raise ValueError(shape)
+    assert len(out) == SHAPE_SIZE[shape], (shape, len(out))
+    return out
